@@ -331,6 +331,21 @@ func errUnexamined(fi *FuncInfo, def ast.Stmt, v types.Object) string {
 		return ""
 	}
 	info := fi.Pkg.TypesInfo
+	// the other results of the same call: testing one of them in a condition examines the call's outcome too
+	siblings := map[types.Object]bool{}
+	if as, ok := def.(*ast.AssignStmt); ok {
+		for _, l := range as.Lhs {
+			if id, ok := unparen(l).(*ast.Ident); ok && id.Name != "_" {
+				o := info.Defs[id]
+				if o == nil {
+					o = info.Uses[id]
+				}
+				if o != nil && o != v {
+					siblings[o] = true
+				}
+			}
+		}
+	}
 	reads := func(n ast.Node) bool {
 		found := false
 		var lhs map[*ast.Ident]bool
@@ -342,12 +357,12 @@ func errUnexamined(fi *FuncInfo, def ast.Stmt, v types.Object) string {
 				}
 			}
 		}
+		_, isCond := n.(ast.Expr)
 		ast.Inspect(n, func(m ast.Node) bool {
-			if _, isLit := m.(*ast.FuncLit); isLit {
-				// a closure that mentions v may read it later: count as a read
-			}
-			if id, ok := m.(*ast.Ident); ok && info.Uses[id] == v && !lhs[id] {
-				found = true
+			if id, ok := m.(*ast.Ident); ok && !lhs[id] {
+				if info.Uses[id] == v || (isCond && siblings[info.Uses[id]]) {
+					found = true
+				}
 			}
 			return !found
 		})
@@ -422,4 +437,56 @@ func errUnexamined(fi *FuncInfo, def ast.Stmt, v types.Object) string {
 		return ""
 	}
 	return walk(startB, startI+1)
+}
+
+// RunErrorsExamined (E5.R-examined): the error result of any call that is stored in a variable must be read on every
+// path before that variable is overwritten or the function ends (a guard that silently disappears leaves the
+// accompanying results - often nil - in use).
+func RunErrorsExamined(c *Ctx, pkgs []string) {
+	in := map[string]bool{}
+	for _, p := range pkgs {
+		in[p] = true
+	}
+	n := 0
+	for _, fi := range c.P.Funcs {
+		if fi.Body == nil || (!in[shortPkg(fi.Pkg.PkgPath)] && !fi.Ctl) {
+			continue
+		}
+		info := fi.Pkg.TypesInfo
+		ast.Inspect(fi.Body, func(nd ast.Node) bool {
+			if lit, ok := nd.(*ast.FuncLit); ok && lit != fi.Lit {
+				return false
+			}
+			as, ok := nd.(*ast.AssignStmt)
+			if !ok || len(as.Rhs) != 1 {
+				return true
+			}
+			call, ok := unparen(as.Rhs[0]).(*ast.CallExpr)
+			if !ok {
+				return true
+			}
+			for _, l := range as.Lhs {
+				id, ok := unparen(l).(*ast.Ident)
+				if !ok || id.Name == "_" {
+					continue
+				}
+				v := info.Defs[id]
+				if v == nil {
+					v = info.Uses[id]
+				}
+				if v == nil || !isErrorType(v.Type()) {
+					continue
+				}
+				n++
+				where := errUnexamined(fi, as, v)
+				c.R.Obl(Obligation{Rule: "E5.R-examined", Func: fi.Name, Construct: "error of " + types.ExprString(call.Fun), Pos: c.P.Position(call.Pos()), Discharged: where == "", Nontrivial: true, Ctl: fi.Ctl})
+				if where != "" {
+					c.R.Find(Finding{Rule: "E5.R-examined", Func: fi.Name, Construct: "unexamined error of " + types.ExprString(call.Fun), Pos: c.P.Position(call.Pos()),
+						Msg: fmt.Sprintf("the error of %s is stored in %s but %s before anything reads it: the failure is silently ignored and the other results (possibly nil) stay in use", types.ExprString(call), v.Name(), where), Ctl: fi.Ctl})
+				}
+			}
+			return true
+		})
+	}
+	c.R.Extra["error_assignments_examined"] = n
 }
